@@ -70,6 +70,95 @@ def deserializeSeq (w len : Nat) : List (List Nat) → List Nat → Bool → Lis
         let r := deserializeSeq w len olds d.2.1 d.2.2
         ((d.1, gcount w len stream, d.2.2) :: r.1, r.2)
 
+/-! ### several objects and one stream: statement histories
+
+The receiving object of a read is an object with a past: it holds old contents, it may have been written to the
+stream before, and — for `poly_p` — its storage may be shared with other handles (copies).  `poly_p` forwards the
+raw reader/writer and the cereal `serialize` to `poly_obj()`, which un-shares first (`detach()`, modelled with its
+use counts in `Model/Cow.lean`: `assign` / `touch`), so that *every* variable behaves as a value.  The history model
+below therefore has one word list per variable (plain `poly` or handle) and one `std::stringstream`:
+
+* `write i`  — `h_i.serialize_manually(ss)`: `ostream::write`, a no-op on a stream that is not good;
+* `read j`   — `h_j.deserialize_manually(ss)`: `istream::read` into the object of `h_j` only (short read: `failbit`,
+  which a `stringstream` shares between its two directions; on a failed stream nothing is extracted);
+* `copy d s` — `h_d = h_s` (for handles: the two now share storage);
+* `poke d i x` — `h_d(i / n, i % n) = x`.
+-/
+
+inductive HStep where
+  | write (i : Nat)
+  | read (j : Nat)
+  | copy (d s : Nat)
+  | poke (d i x : Nat)
+  deriving Repr
+
+/-- contents of variable `i` -/
+def getH (hs : List (List Nat)) (i : Nat) : List Nat := (hs[i]?).getD []
+
+structure HState where
+  hs : List (List Nat)
+  stream : List Nat
+  failed : Bool
+  deriving Repr
+
+def stepH (w len : Nat) (s : HState) : HStep → HState
+  | .write i => if s.failed then s else { s with stream := s.stream ++ serialize w (getH s.hs i) }
+  | .read j =>
+    if s.failed then s else
+      let d := deserialize w len (getH s.hs j) s.stream
+      { hs := s.hs.set j d.1, stream := d.2.1, failed := d.2.2 }
+  | .copy d src => { s with hs := s.hs.set d (getH s.hs src) }
+  | .poke d i x => { s with hs := s.hs.set d ((getH s.hs d).set i x) }
+
+/-- what the statement lets the caller observe: bytes appended by a write; (`fail()`, `gcount()`) after a read -/
+def obsH (w len : Nat) (s : HState) : HStep → Nat × Nat
+  | .write i => (if s.failed then 0 else (serialize w (getH s.hs i)).length, 0)
+  | .read j =>
+    if s.failed then (1, 0)
+    else (if (stepH w len s (.read j)).failed then 1 else 0, gcount w len s.stream)
+  | _ => (0, 0)
+
+/-- observation and contents of **all** variables after every statement -/
+def traceH (w len : Nat) : List HStep → HState → List ((Nat × Nat) × List (List Nat))
+  | [], _ => []
+  | st :: r, s =>
+    let s' := stepH w len s st
+    (obsH w len s st, s'.hs) :: traceH w len r s'
+
+/-! The same histories as the property states them: variables are values, the stream is a FIFO of polynomials. -/
+
+structure VHState where
+  hs : List (List Nat)
+  queue : List (List Nat)
+  failed : Bool
+  deriving Repr
+
+def stepHV (s : VHState) : HStep → VHState
+  | .write i => if s.failed then s else { s with queue := s.queue ++ [getH s.hs i] }
+  | .read j =>
+    if s.failed then s else
+      match s.queue with
+      | [] => { s with failed := true }
+      | v :: q => { s with hs := s.hs.set j v, queue := q }
+  | .copy d src => { s with hs := s.hs.set d (getH s.hs src) }
+  | .poke d i x => { s with hs := s.hs.set d ((getH s.hs d).set i x) }
+
+/-- `size` = bytes of one polynomial -/
+def obsHV (size : Nat) (s : VHState) : HStep → Nat × Nat
+  | .write _ => (if s.failed then 0 else size, 0)
+  | .read _ =>
+    if s.failed then (1, 0) else
+      match s.queue with
+      | [] => (1, 0)
+      | _ :: _ => (0, size)
+  | _ => (0, 0)
+
+def traceHV (size : Nat) : List HStep → VHState → List ((Nat × Nat) × List (List Nat))
+  | [], _ => []
+  | st :: r, s =>
+    let s' := stepHV s st
+    (obsHV size s st, s'.hs) :: traceHV size r s'
+
 /-! ### text form -/
 
 /-- `term`: "ULL" for `uint64_t`, "UL" for `uint32_t`, "U" otherwise -/
